@@ -94,8 +94,8 @@ Fixpoint final (key : bulk) (s : state) (ops : list op) : state :=
   | o :: ops' => final key (fst (step key s o)) ops'
   end.
 
-Definition init (ids : list string) : state :=
-  mkState (mkR 0 []) (map (fun id => mkInst id 0) ids).
+Definition init (incl : bool) (ids : list string) : state :=
+  mkState (mkR 0 [] incl) (map (fun id => mkInst id 0) ids).
 
 (* ---------------------------------------------------------------- observations on a state *)
 (* the value (and expiry) every client sees at the key now *)
@@ -109,11 +109,11 @@ Definition key_free (key : bulk) (s : state) : bool :=
 
 (* ---------------------------------------------------------------- the lease specification *)
 (* abstract state: who holds the key until when, the clock, and each instance's seconds *)
-Record astate := mkA { aheld : option (bulk * option Z); anow : Z; ainsts : list inst }.
+Record astate := mkA { aheld : option (bulk * option Z); anow : Z; ainsts : list inst; aincl : bool }.
 
 Definition a_seen (a : astate) : option (bulk * option Z) :=
   match aheld a with
-  | Some (v, Some t) => if anow a <? t then Some (v, Some t) else None
+  | Some (v, Some t) => if before (aincl a) (anow a) t then Some (v, Some t) else None
   | h => h
   end.
 
@@ -124,7 +124,7 @@ Definition sp_step (a : astate) (o : op) : astate * obs :=
     | None => (a, RU)
     | Some l =>
       if 0 <? lease (isecs l) then
-        let grant := mkA (Some (BStr (iid l), Some (anow a + lease (isecs l)))) (anow a) (ainsts a) in
+        let grant := mkA (Some (BStr (iid l), Some (anow a + lease (isecs l)))) (anow a) (ainsts a) (aincl a) in
         match a_seen a with
         | None => (grant, RB true false)
         | Some (v, _) => if bulk_eqb v (BStr (iid l)) then (grant, RB true false)
@@ -138,15 +138,15 @@ Definition sp_step (a : astate) (o : op) : astate * obs :=
     | Some l =>
       match a_seen a with
       | Some (v, _) => if bulk_eqb v (BStr (iid l))
-                       then (mkA None (anow a) (ainsts a), RB true false)
+                       then (mkA None (anow a) (ainsts a) (aincl a), RB true false)
                        else (a, RB false false)
       | None => (a, RB false false)
       end
     end
-  | OSetExpire i secs => (mkA (aheld a) (anow a) (set_secs i (to_uint32 secs) (ainsts a)), RU)
-  | OAdvance ms => (mkA (aheld a) (anow a + ms) (ainsts a), RU)
+  | OSetExpire i secs => (mkA (aheld a) (anow a) (set_secs i (to_uint32 secs) (ainsts a)) (aincl a), RU)
+  | OAdvance ms => (mkA (aheld a) (anow a + ms) (ainsts a) (aincl a), RU)
   | OPoke v ttl => (mkA (Some (v, match ttl with Some t => Some (anow a + t) | None => None end))
-                        (anow a) (ainsts a), RU)
+                        (anow a) (ainsts a) (aincl a), RU)
   end.
 
 Fixpoint sp_run (a : astate) (ops : list op) : list obs :=
@@ -158,4 +158,4 @@ Fixpoint sp_run (a : astate) (ops : list op) : list obs :=
 (* abstraction of a model state *)
 Definition abs (key : bulk) (s : state) : astate :=
   mkA (match find key (rdata (store s)) with Some e => Some (evalue e, eexp e) | None => None end)
-      (rnow (store s)) (insts s).
+      (rnow (store s)) (insts s) (expiry_inclusive (store s)).
